@@ -720,3 +720,69 @@ theorem gateStop_escape (v : Nat → Text → Verdict) (rails : List Nat) (t : T
   cases w <;> simp_all [Verdict.continues]
 
 end NemoVerif.Pipeline
+
+namespace NemoVerif.Pipeline
+
+/-! ## Colang 1.0: the input-rail invocations need no assumption about the output rails or the carried flag -/
+
+theorem railCalls_other_railsV1 (cfg : Cfg) (rf : Bool) (k k' : Kind) (hk : k ≠ k') (v : Nat → Text → Verdict) :
+    ∀ (rails : List Nat) (t : Text) (s : Bool), railCalls k' (railsV1 cfg rf k v rails t s).1 = []
+  | [], t, s => by simp [railsV1, railCalls]
+  | r :: rs, t, s => by
+    cases hv : v r t with
+    | accept => simp [railsV1, hv, railCalls, hk, railCalls_other_railsV1 cfg rf k k' hk v rs t s]
+    | rewrite t' => simp [railsV1, hv, railCalls, hk, railCalls_other_railsV1 cfg rf k k' hk v rs t' s]
+    | fault => simp [railsV1, hv, railCalls, hk]
+    | escape => simp [railsV1, hv, railCalls, hk]
+    | reject =>
+      by_cases he : cfg.exc = true
+      · by_cases hs : cfg.stops k r = true
+        · simp [railsV1, hv, he, hs, railCalls, hk]
+        · have hs' : cfg.stops k r = false := by simpa using hs
+          simp [railsV1, hv, he, hs', railCalls, hk, railCalls_other_railsV1 cfg rf k k' hk v rs t s]
+      · have he' : cfg.exc = false := by simpa using he
+        cases rf <;> simp [railsV1, hv, he', railCalls, hk]
+
+theorem railCalls_input_processBotV1 (cfg : Cfg) (t : Turn) (skip : Bool) (text : Text) :
+    railCalls .input (processBotV1 cfg t skip text).1 = [] := by
+  unfold processBotV1
+  cases skip
+  · by_cases he : cfg.outRails.isEmpty = true
+    · simp [he, railCalls]
+    · have he' : cfg.outRails.isEmpty = false := by simpa using he
+      simp only [Bool.false_eq_true, if_false, he']
+      have := railCalls_other_railsV1 cfg t.retrFault .output .input (by decide) t.vout cfg.outRails text false
+      rcases hr : railsV1 cfg t.retrFault .output t.vout cfg.outRails text false with ⟨tr, res, s⟩
+      rw [hr] at this
+      simp only at this
+      cases res <;> simp [this, railCalls]
+  · simp [railCalls]
+
+theorem railCalls_input_genV1 (cfg : Cfg) (t : Turn) (skip : Bool) (um : Text) :
+    railCalls .input (genV1 cfg t skip um).1 = [] := by
+  rw [genV1_nf]
+  by_cases hf : genFaultV1 cfg t = true
+  · simp [hf, railCalls_genFaultStepsV1]
+  · have hf' : genFaultV1 cfg t = false := by simpa using hf
+    simp [hf', railCalls_genPrefixV1, railCalls_input_processBotV1]
+
+/-- The input-rail invocations of a Colang 1.0 turn are `gate` — assuming only that the *input* rail
+    flows are well formed; nothing about the output rails or the state the turn starts from. -/
+theorem turnV1_input_calls (cfg : Cfg) (h : HistV1) (t : Turn) (hi : WF cfg .input) :
+    railCalls .input (turnV1 cfg h t).1 = gate t.vin cfg.inRails t.user := by
+  unfold turnV1
+  rw [inputPartV1_eq, railsV1_nf cfg t.retrFault .input t.vin hi]
+  simp only
+  cases hres : stopResV1 cfg t.retrFault (gateText t.vin cfg.inRails t.user) (gateStop t.vin cfg.inRails t.user) with
+  | pass um =>
+    simp only
+    rcases hg : genV1 cfg t (stopSkipV1 cfg t.retrFault h.skip (gateStop t.vin cfg.inRails t.user)) um with ⟨tr, e, s2⟩
+    have := railCalls_input_genV1 cfg t (stopSkipV1 cfg t.retrFault h.skip (gateStop t.vin cfg.inRails t.user)) um
+    rw [hg] at this
+    simp only at this
+    simp [railCalls_stopStepsV1, this]
+  | blocked => simp [railCalls_stopStepsV1]
+  | faulted => simp [railCalls_stopStepsV1]
+  | escaped => simp [railCalls_stopStepsV1]
+
+end NemoVerif.Pipeline
